@@ -19,6 +19,7 @@ Model/Xerial.lean — executable model of compress/snappy/xerial.go over an ABST
             `resetWriter`.
 -/
 import KafkaVerif.Spec.Xerial
+import KafkaVerif.Gen.XerialFacts
 
 namespace KV.Model.Xerial
 open KV KV.RW
@@ -173,6 +174,35 @@ def read (c : Codec) : Nat → Reader → Nat → Reader × ReadRes
       | (r, .buffered) => read c fuel r k
       | (r, .eof) => (r, .eof)
       | (r, .err) => (r, .err)
+
+/-! ### `Read(p)` with a buffer whose capacity exceeds its length
+
+`p` may be a prefix of a larger array (`buf[:n]`, io.LimitedReader, scratch arrays): `len(p) < cap(p)`.  `Read` must hand
+out at most `len(p)` bytes (io.Reader).  Pending output is copied with `copy(b, …)` — bounded by `len(b)` — but the
+"decode straight into the caller's buffer" shortcut of `readChunk` compares the decoded length with a builtin of `dst`
+that the model takes FROM THE SOURCE (Gen/XerialFacts.directDecodeBound, go/ast on every run): `len` or `cap`. -/
+
+/-- what `readChunk(dst)` compares the decoded length with, for a buffer of length `len` and capacity `cap` -/
+def directBound (len cap : Nat) : Nat :=
+  if Gen.XerialFacts.directDecodeBound = ["len"] then len else cap
+
+/-- `Read(p)` for `len(p) = len ≥ 1`, `cap(p) = cap`: like `read`, with the copy bounded by `len` and the direct-decode
+decision by `bound` -/
+def readB (c : Codec) : Nat → Reader → Nat → Nat → Reader × ReadRes
+  | 0, r, _, _ => (r, .err)
+  | fuel + 1, r, len, bound =>
+    if r.offset < r.output.length then
+      let d := (r.output.drop r.offset).take len
+      ({ r with offset := r.offset + d.length }, .data d)
+    else
+      match readChunk c r bound with
+      | (r, .direct b) => if b.length > 0 then (r, .data b) else readB c fuel r len bound
+      | (r, .buffered) => readB c fuel r len bound
+      | (r, .eof) => (r, .eof)
+      | (r, .err) => (r, .err)
+
+def readBuf (c : Codec) (fuel : Nat) (r : Reader) (len cap : Nat) : Reader × ReadRes :=
+  readB c fuel r len (directBound len cap)
 
 /-- a consumer calling `Read` with the given buffer sizes until EOF: the returned sizes (0 for the final EOF),
 as observed by the harness -/
